@@ -7,6 +7,7 @@ import warnings
 from fractions import Fraction
 
 from sa.core import AnalysisError, Report, loc, norm_src
+from sa.paths import call_name, dotted
 from sa.consteval import ev
 from sa.numconst import PREC, EMAX, EMIN
 from ir.frontend import load_package
@@ -703,6 +704,50 @@ def check_nztopk(r, repo, rule="R12.5", sizes=(1, 2, 3, 4, 5)):
 
 
 
+def check_fast_mode_precondition(r, repo, rule="R12.6"):
+    """fast=True replaces 2Sum by Fast2Sum, whose error term is a + b - s only when |a| >= |b| (exponent of a not below that of b).
+    The property quantifies over all finite expansions, overlapping or not, in fast and safe mode, and the documented precondition
+    of renormalize is only "absolute values decreasing".  In vecsum the second operand of the fast sum is the *accumulated sum of
+    the tail*, which can exceed the next item although the items decrease (0.1199, 0.1094, 0.0405: the tail sums to 0.1499) - so
+    the order |a| >= |b| has to be established where the fast sum is applied: by a test or selection on the magnitudes, or by
+    ordering the operands.  Decided structurally: a call that forwards the fast flag to the summation kernel with a loop-carried
+    accumulator as an operand, with no magnitude comparison in the function."""
+    n = 0
+    for fname in ("vecsum", "renormalize"):  # vecsumerr is not called by the package
+        f = repo.func(AP, fname)
+        params = [a.arg for a in f.args.args]
+        if "fast" not in params:
+            continue
+        guards = [c for c in ast.walk(f) if isinstance(c, ast.Compare) and any(isinstance(x, ast.Call) and (dotted(x.func) or "").split(".")[-1] in ("abs", "absolute", "fabs") for x in ast.walk(c))]
+        carried = set()
+        for loop in [x for x in ast.walk(f) if isinstance(x, (ast.For, ast.While))]:
+            for st in ast.walk(loop):
+                if isinstance(st, ast.Assign):
+                    for t in st.targets:
+                        for nm in ([t] if isinstance(t, ast.Name) else list(t.elts) if isinstance(t, ast.Tuple) else []):
+                            if isinstance(nm, ast.Name) and any(isinstance(y, ast.Name) and y.id == nm.id for y in ast.walk(st.value)):
+                                carried.add(nm.id)
+        for c in ast.walk(f):
+            if not isinstance(c, ast.Call):
+                continue
+            nm = (call_name(c) or "").split(".")[-1]
+            fast_fwd = any(isinstance(k.value, ast.Name) and k.value.id == "fast" and k.arg in ("assume_fma", "fast") for k in c.keywords)
+            quick = nm == "quick_two_sum"
+            if not ((nm in ("two_sum", "add_2sum") and fast_fwd) or quick):
+                continue
+            ops = [a for a in c.args[1:3]]
+            acc = [a for a in ops if isinstance(a, ast.Name) and a.id in carried]
+            if not acc:
+                continue
+            n += 1
+            r.ob(rule, f"{AP}::{fname} fast sum `{norm_src(c)[:70]}` has its operand order established", bool(guards),
+                 f"in fast mode `{norm_src(c)[:90]}` is a Fast2Sum whose operand `{acc[0].id}` is a sum accumulated over the rest of the list; its magnitude is not bounded by the "
+                 "other operand for decreasing (let alone arbitrary) input, and nothing in the function compares magnitudes: float16 renormalize([-0.11993, -0.1094, -0.04047], "
+                 "fast=True) returns [-0.2698, 6.104e-05], whose sum differs from the input's by 2^-14", loc(AP, c))
+    if n == 0:
+        raise AnalysisError("apmath: no fast-mode summation with an accumulated operand was recognised (vecsum / renormalize)")
+
+
 def run(repo, tier):
     r = Report("C12", tier, repo, level="other", design_ref="§3/C12")
     r.explanation = (
@@ -721,6 +766,7 @@ def run(repo, tier):
     r.rule("R12.1", "functional renormalize: in every case split, sum(outputs) == sum(inputs) exactly (affine-equality domain)", floor=8)
     r.rule("R12.3", "add/subtract/multiply/square hand renormalize a list whose exact sum is the exact sum/difference/product/square (two_prod and vecsum summarised by their error-free contracts)", floor=40)
     r.rule("R12.4", "eager renormalize on every sequence of is-nonzero decisions: the unlimited result sums to the input sum, and a size limit returns a prefix of the unlimited result", floor=20)
+    r.rule("R12.6", "fast mode: where Fast2Sum is applied to an accumulated sum, the order |a| >= |b| of its operands is established in the function (the exact sum is preserved for every finite expansion)", floor=1)
     r.rule("R12.5", "nztopk returns the non-zero items in order followed by zeros for every zero pattern and every k (zeros at the tail of the functional normal form)", floor=1)
     r.rule("R12.2", "maximal expansion size tables equal (maxexp - minexp - machep) // (-negep - 1) for float16/32/64", floor=3)
 
@@ -729,6 +775,7 @@ def run(repo, tier):
     check_product_accounting(r, repo, sizes=(1, 2, 3) if tier == "quick" else (1, 2, 3, 4, 5))
     check_eager_renormalize(r, repo, sizes=(2, 3, 4, 5) if tier == "quick" else (2, 3, 4, 5, 6, 7))
     check_nztopk(r, repo, sizes=(1, 2, 3, 4, 5) if tier == "quick" else (1, 2, 3, 4, 5, 6, 7))
+    check_fast_mode_precondition(r, repo)
     fa = load_package(repo.root)
     from ir import normal
     apmath = fa.apmath
